@@ -8,26 +8,27 @@ import (
 	"strings"
 
 	"github.com/theparanoids/ysshra/keyid"
+	"verifharness/core"
 )
 
-func init() {
-	drivers["C05"] = &Driver{
+func main() {
+	core.Main("C05", &core.Driver{
 		Imports:  "From Verif Require Import Lib.Base Lib.Json Model.KeyId Model.C05Check.",
 		CheckFn:  "C05Check.check",
 		ClassFn:  "C05Check.classify",
 		CaseType: "C05Check.case",
 		Run:      runC05,
-	}
+	})
 }
 
 func gKeyID(k *keyid.KeyID) string {
 	prins := "None"
 	if k.Principals != nil {
-		prins = "(Some " + gStrList(k.Principals) + ")"
+		prins = "(Some " + core.GStrList(k.Principals) + ")"
 	}
-	return gApp("mkKeyID", prins, gStr(k.TransID), gStr(k.ReqUser), gStr(k.ReqIP), gStr(k.ReqHost),
-		gBool(k.IsFirefighter), gBool(k.IsHWKey), gBool(k.IsHeadless), gBool(k.IsNonce),
-		gZ(int64(k.Usage)), gZ(int64(k.TouchPolicy)), gN(uint64(k.Version)))
+	return core.GApp("mkKeyID", prins, core.GStr(k.TransID), core.GStr(k.ReqUser), core.GStr(k.ReqIP), core.GStr(k.ReqHost),
+		core.GBool(k.IsFirefighter), core.GBool(k.IsHWKey), core.GBool(k.IsHeadless), core.GBool(k.IsNonce),
+		core.GZ(int64(k.Usage)), core.GZ(int64(k.TouchPolicy)), core.GN(uint64(k.Version)))
 }
 
 func genKeyIDValue(r *rand.Rand) *keyid.KeyID {
@@ -38,17 +39,17 @@ func genKeyIDValue(r *rand.Rand) *keyid.KeyID {
 	case 1:
 		k.Principals = []string{}
 	default:
-		k.Principals = genTextList(r, 5)
+		k.Principals = core.GenTextList(r, 5)
 	}
-	k.TransID, k.ReqUser, k.ReqIP, k.ReqHost = genText(r), genText(r), genText(r), genText(r)
+	k.TransID, k.ReqUser, k.ReqIP, k.ReqHost = core.GenText(r), core.GenText(r), core.GenText(r), core.GenText(r)
 	flags := r.Intn(16)
 	if r.Intn(3) == 0 { // bias towards few flags so that consistent KeyIDs are common
-		flags = pick(r, 0, 1, 2, 4, 8, 3)
+		flags = core.Pick(r, 0, 1, 2, 4, 8, 3)
 	}
 	k.IsFirefighter, k.IsHWKey, k.IsHeadless, k.IsNonce = flags&1 != 0, flags&2 != 0, flags&4 != 0, flags&8 != 0
-	k.TouchPolicy = keyid.TouchPolicy(pick[int64](r, 1, 1, 1, 0, 2, 3, -1, 4, 5, 1<<31, math.MinInt64, math.MaxInt64))
-	k.Usage = keyid.Usage(pick[int64](r, 0, 0, 1, 2, -1, math.MaxInt64, math.MinInt64))
-	k.Version = pick[uint16](r, 1, 1, 1, 1, 0, 2, 65535)
+	k.TouchPolicy = keyid.TouchPolicy(core.Pick[int64](r, 1, 1, 1, 0, 2, 3, -1, 4, 5, 1<<31, math.MinInt64, math.MaxInt64))
+	k.Usage = keyid.Usage(core.Pick[int64](r, 0, 0, 1, 2, -1, math.MaxInt64, math.MinInt64))
+	k.Version = core.Pick[uint16](r, 1, 1, 1, 1, 0, 2, 65535)
 	return k
 }
 
@@ -69,12 +70,12 @@ func genJSONValue(r *rand.Rand, depth int) string {
 	case 0:
 		return "null"
 	case 1:
-		return pick(r, "true", "false")
+		return core.Pick(r, "true", "false")
 	case 2, 3:
-		return pick(r, "0", "1", "2", "3", "-1", "-0", "1.0", "1e2", "65535", "65536", "0.5", "1E0",
+		return core.Pick(r, "0", "1", "2", "3", "-1", "-0", "1.0", "1e2", "65535", "65536", "0.5", "1E0",
 			"9223372036854775807", "9223372036854775808", "-9223372036854775808", "-9223372036854775809", "4", "100")
 	case 4, 5, 6:
-		b, _ := json.Marshal(genText(r))
+		b, _ := json.Marshal(core.GenText(r))
 		return string(b)
 	case 7, 8:
 		if depth <= 0 {
@@ -84,7 +85,7 @@ func genJSONValue(r *rand.Rand, depth int) string {
 		var xs []string
 		for i := 0; i < n; i++ {
 			if r.Intn(3) > 0 {
-				b, _ := json.Marshal(genText(r))
+				b, _ := json.Marshal(core.GenText(r))
 				xs = append(xs, string(b))
 			} else {
 				xs = append(xs, genJSONValue(r, depth-1))
@@ -98,7 +99,7 @@ func genJSONValue(r *rand.Rand, depth int) string {
 		n := r.Intn(3)
 		var kvs []kv
 		for i := 0; i < n; i++ {
-			kvs = append(kvs, kv{genText(r), genJSONValue(r, depth-1)})
+			kvs = append(kvs, kv{core.GenText(r), genJSONValue(r, depth-1)})
 		}
 		return renderObj(kvs)
 	}
@@ -122,14 +123,14 @@ func caseVariants(r *rand.Rand, k string) string {
 	}
 }
 
-func runC05(c *Ctx) {
+func runC05(c *core.Ctx) {
 	r := c.Rng
 	emitRound := func(class string, k *keyid.KeyID) {
 		var out string
 		var err error
 		var back *keyid.KeyID
 		var berr error
-		if p, msg := Guard(func() {
+		if p, msg := core.Guard(func() {
 			out, err = k.Marshal()
 			if err == nil {
 				back, berr = keyid.Unmarshal(out)
@@ -140,7 +141,7 @@ func runC05(c *Ctx) {
 		}
 		enc, dec := "None", "None"
 		if err == nil {
-			t, ok := jsonTree([]byte(out))
+			t, ok := core.JSONTree([]byte(out))
 			if !ok {
 				c.Native("Marshal produced text that is not valid JSON", out)
 				return
@@ -150,22 +151,22 @@ func runC05(c *Ctx) {
 				dec = "(Some " + gKeyID(back) + ")"
 			}
 		}
-		c.Case(class, gApp("CRound", gKeyID(k), enc, dec),
+		c.Case(class, core.GApp("CRound", gKeyID(k), enc, dec),
 			map[string]interface{}{"op": "Marshal+Unmarshal", "keyid": fmt.Sprintf("%+v", *k), "text": out, "marshal_err": fmt.Sprint(err), "unmarshal_err": fmt.Sprint(berr)})
 	}
 	emitDecode := func(class string, text string) {
 		var back *keyid.KeyID
 		var err error
-		if p, msg := Guard(func() { back, err = keyid.Unmarshal(text) }); p {
+		if p, msg := core.Guard(func() { back, err = keyid.Unmarshal(text) }); p {
 			c.Native("panic in keyid.Unmarshal: "+msg, text)
 			return
 		}
-		tree, ok := jsonTree([]byte(text))
+		tree, ok := core.JSONTree([]byte(text))
 		dec := "None"
 		if err == nil {
 			dec = "(Some " + gKeyID(back) + ")"
 		}
-		c.Case(class, gApp("CDecode", gOpt(ok, tree), dec),
+		c.Case(class, core.GApp("CDecode", core.GOpt(ok, tree), dec),
 			map[string]interface{}{"op": "Unmarshal", "text": text, "err": fmt.Sprint(err)})
 	}
 
@@ -242,7 +243,7 @@ func runC05(c *Ctx) {
 				kvs[fi].v = genJSONValue(r, 2)
 				emitDecode("retype-field", renderObj(kvs))
 			case 4: // add unknown keys / shuffle
-				kvs = append(kvs, kv{genText(r), genJSONValue(r, 2)})
+				kvs = append(kvs, kv{core.GenText(r), genJSONValue(r, 2)})
 				r.Shuffle(len(kvs), func(a, b int) { kvs[a], kvs[b] = kvs[b], kvs[a] })
 				emitDecode("extra-and-shuffle", renderObj(kvs))
 			default: // two mutations
